@@ -392,6 +392,14 @@ Fixpoint dict_ok (t : tree) : bool :=
 Definition top_ok (d : list (string * tree)) : bool :=
   forallb key_ok (map fst d) && snodup (map fst d) && forallb (fun kv => dict_ok (snd kv)) d.
 
+(* the name of a dataset inside the file: path + key + "/" + key ... *)
+Fixpoint join (p : list string) : string :=
+  match p with
+  | [] => EmptyString
+  | [a] => a
+  | a :: r => (a ++ "/" ++ join r)%string
+  end.
+
 (* a str leaf equal to the None marker cannot be told from None after reading back *)
 Fixpoint no_marker (t : tree) : bool :=
   match t with
